@@ -507,3 +507,18 @@ mod tests {
         }
     }
 }
+
+#[cfg(wtransport_verif)]
+#[doc(hidden)]
+#[allow(missing_docs)]
+pub mod verif {
+    use super::*;
+
+    pub fn stream_kind_parse(id: VarInt) -> Option<StreamKind> {
+        StreamKind::parse(id)
+    }
+
+    pub fn stream_kind_id(kind: StreamKind) -> VarInt {
+        kind.id()
+    }
+}
